@@ -10,7 +10,7 @@ of the call and of the definition command, return, exit status, subshells).
 
  0. Calib_Functions: the examples of the manual and the function cases of the
     repository's scripted tests hold for the oracle (ASSUMEs).
- 1. MC_Functions: the machine run step by step over every scenario of six
+ 1. MC_Functions: the machine run step by step over every scenario of seven
     families; TLC proves the invariants / action properties (call restores,
     read-only stable, define inert, only three commands change the table,
     unset -f processes every operand, subshell containment, observations are
@@ -44,7 +44,7 @@ TIERS = {
                   api="Gen_FunctionSet_quick.cfg", nrandom=6000, timeout=600),
     "thorough": dict(gen=["Gen_Functions_thorough_a.cfg", "Gen_Functions_thorough_b.cfg"], mc="MC_Functions_thorough.cfg",
                      coverage=True,
-                     api="Gen_FunctionSet_thorough.cfg", nrandom=100000, timeout=2400),
+                     api="Gen_FunctionSet_thorough.cfg", nrandom=60000, timeout=2400),
 }
 
 # wrong variant of the machine -> the property of MC_Functions that must refute it
@@ -252,7 +252,7 @@ def run(tier):
         "rule": "enumerated scenarios of class ok that print at least two lines, plus random scenarios of class ok "
                 "accepted by Trace_Functions, plus operation sequences replayed on FunctionSet",
         "exhaustive": True,
-        "exhaustive_bound": f"all scenarios of the six families at the bounds of {T['gen']} (spec/Gen_Functions.tla); all "
+        "exhaustive_bound": f"all scenarios of the seven families at the bounds of {T['gen']} (spec/Gen_Functions.tla); all "
                             f"operation sequences of {T['api']}; random beyond",
         "model_checked_states": mc.distinct,
         "model_actions_exercised": acts,
